@@ -23,7 +23,8 @@ pub struct Case {
     /// stream clause
     pub toks: Vec<TokSpec>,
     /// 0 all, 1 none, 2 first k, 3 skip k then rest, 4 every other, 5 all + keep alive past the call,
-    /// 6 all, and the constructor returns the first token it was given (with the data attached)
+    /// 6 all, and the constructor returns the first token it was given (with the data attached),
+    /// 7 all, and the constructor makes nested library calls on the same thread (re-entrancy)
     pub sink_mode: u8,
     pub sink_k: usize,
     /// text clause (fault-free configuration); empty = skip
@@ -56,6 +57,24 @@ struct SinkCtx {
     stash: Vec<RTok>,
     next_new: usize,
     events: u64,
+    nested_mismatch: bool,
+}
+
+/// token type of the nested stream call made by sink mode 7
+struct NestedTok(String);
+impl Token for &NestedTok {
+    fn text(&self) -> &str {
+        &self.0
+    }
+    fn text_lowercase(&self) -> &str {
+        &self.0
+    }
+}
+impl Replace for NestedTok {
+    fn replace<I: Iterator<Item = Self>>(replaced: I, data: String) -> Self {
+        let _ = replaced.count();
+        NestedTok(data)
+    }
 }
 
 thread_local! {
@@ -95,6 +114,17 @@ impl Replace for RTok {
             let s = s.borrow();
             (s.mode, s.k)
         });
+        if mode == 7 {
+            // nested calls from inside the caller's constructor: they must give what they give on
+            // their own, and must not disturb the call in progress
+            let en = text2num::lang::English::new();
+            let a = text2num::replace_numbers_in_text("one, twenty two and three point five", &en, 0.0);
+            let words: Vec<NestedTok> = "i have twenty five dollars and one two".split(' ').map(|w| NestedTok(w.to_string())).collect();
+            let b: Vec<String> = text2num::replace_numbers_in_stream(words, &en, 0.0).into_iter().map(|t| t.0).collect();
+            if a != "1, 22 and 3.5" || b.join(" ") != "i have 25 dollars and 1 2" {
+                SINK.with(|s| s.borrow_mut().nested_mismatch = true);
+            }
+        }
         let mut taken: Vec<RTok> = Vec::new();
         match mode {
             1 => {}
@@ -228,6 +258,9 @@ fn exec_stream<L: LangInterpreter>(l: &L, case: &Case, stats: &mut Stats, fp: &m
             calls
         )
     };
+    if SINK.with(|s| s.borrow().nested_mismatch) {
+        return Err(viol("S6-reentrancy", format!("a library call nested inside the caller's Replace constructor did not give what it gives on its own; {}", ctx())));
+    }
     // S2: the constructor is invoked once per occurrence
     if calls.len() != occs.len() {
         return Err(viol("S2-one-constructor-call-per-occurrence", format!("{} calls for {} occurrences; {}", calls.len(), occs.len(), ctx())));
@@ -317,7 +350,8 @@ fn exec_stream<L: LangInterpreter>(l: &L, case: &Case, stats: &mut Stats, fp: &m
             3 => stats.hit("fault.sink_skip_k"),
             4 => stats.hit("fault.sink_every_other"),
             5 => stats.hit("fault.sink_keep_alive_past_call"),
-            _ => stats.hit("fault.sink_returns_received_token"),
+            6 => stats.hit("fault.sink_returns_received_token"),
+            _ => stats.hit("fault.sink_makes_nested_calls"),
         }
         if occs.iter().any(|o| o.end - o.start > 1) {
             stats.hit("probe.multi_token_occurrence");
@@ -533,7 +567,7 @@ impl Check for C02 {
                 }
             }
         }
-        let sink_mode = *rng.pick(&[0u8, 0, 0, 1, 2, 3, 4, 5, 6]);
+        let sink_mode = *rng.pick(&[0u8, 0, 0, 1, 2, 3, 4, 5, 6, 7]);
         let sink_k = rng.below(4);
         let text = if rng.chance(3, 4) {
             // one text in 150 is a long document (thousands of bytes, hundreds of tokens)
@@ -696,6 +730,7 @@ impl Check for C02 {
             "fault.sink_every_other",
             "fault.sink_keep_alive_past_call",
             "fault.sink_returns_received_token",
+            "fault.sink_makes_nested_calls",
             "fault.interpreter_crash_in_earlier_call",
         ]
     }
